@@ -48,6 +48,13 @@ tags: ordered
 [Dated]
 match: len([r for r in orders if r.amount == txn.amount and r.when >= "2025-01-01"]) > 0
 tags: dated
+
+[Numbered]
+let: num = extract("#(\\d+)")
+let: tail = substring(0, 6)
+let: hits2 = [r for r in orders if r.item == num]
+match: num == "123" or tail == "Charli"
+tags: numbered, {trim()}
 '''
 R2 = '''# rules two: same rule names and expression texts, different meaning
 big = amount > 400
